@@ -104,13 +104,14 @@ Record req := {
   r_redirect : string;        (* form value kept by Sanitize in the code record *)
   r_challenge : string;       (* only meaningful in PKCE records *)
   r_method : string;
+  r_mode : string;            (* pushed authorization requests: the pushed response_mode ("" = none) *)
   r_at : Z                    (* RequestedAt *)
 }.
 
 Definition with_sess (r : req) (s : sess) : req :=
   {| r_id := r_id r; r_client := r_client r; r_cl := r_cl r; r_rscopes := r_rscopes r; r_gscopes := r_gscopes r;
      r_raud := r_raud r; r_gaud := r_gaud r; r_sess := s; r_redirect := r_redirect r;
-     r_challenge := r_challenge r; r_method := r_method r; r_at := r_at r |}.
+     r_challenge := r_challenge r; r_method := r_method r; r_mode := ""; r_at := r_at r |}.
 
 (* ------------------------------------------------------------------ the reference store *)
 Record store := {
